@@ -88,6 +88,21 @@ static void glog(T v)
   g_glog += show_val(v);
 }
 
+// what guest code learns from a function-pointer representation it was passed: an entry point of the callback part of
+// the table (reported as it is), or an entry of the function table (reported as 20000 + k when it designates the k-th
+// address target fa_t<k>, as 30000 + the raw value when it designates nothing known)
+static std::vector<const void*> g_fa_targets;
+static void glog_fn(rep_t a)
+{
+  auto sb = reinterpret_cast<Sbx*>(rlbox::verif_tls.sandbox);
+  if (a >= Sbx::CB_BASE || sb == nullptr) { glog(a); return; }
+  long id = 30000 + long(a);
+  if (a < sb->function_table.size()) {
+    for (size_t k = 0; k < g_fa_targets.size(); k++) if (sb->function_table[a] == g_fa_targets[k]) id = 20000 + long(k);
+  }
+  glog(id);
+}
+
 // ---- argument builders ----
 template<typename T>
 static T* mkraw(const std::string& s)
